@@ -56,13 +56,20 @@ def _limits(as_mb, cpu_s, stack_mb=None):
 
 
 def run(cmd, cwd=None, timeout=20, input=None, env=None, as_mb=4096, cpu_s=None, text=True, stdout=None):
-    """Run cmd; never raises on failure.  rc<0 = killed by signal -rc."""
+    """Run cmd under CPU/address-space limits in its own session; never raises on failure.
+    rc<0 = killed by signal -rc.  (Limits are set by a /bin/sh wrapper rather than a preexec_fn so
+    that Popen can use vfork: forking a large Python worker for every compiler run was the
+    dominant cost.)"""
     if cpu_s is None:
         cpu_s = int(timeout) + 2
+    lim = 'ulimit -c 0; ulimit -t %d; ' % cpu_s
+    if as_mb:
+        lim += 'ulimit -v %d; ' % (as_mb * 1024)
+    wrapped = ['/bin/sh', '-c', lim + 'exec "$0" "$@"'] + list(cmd)
     try:
-        p = subprocess.Popen(cmd, cwd=cwd, env=env, stdin=subprocess.PIPE if input is not None else subprocess.DEVNULL,
+        p = subprocess.Popen(wrapped, cwd=cwd, env=env, stdin=subprocess.PIPE if input is not None else subprocess.DEVNULL,
                              stdout=stdout if stdout is not None else subprocess.PIPE, stderr=subprocess.PIPE,
-                             preexec_fn=_limits(as_mb, cpu_s))
+                             start_new_session=True)
     except OSError as e:
         return R(127, '', str(e), False)
     try:
